@@ -12,6 +12,7 @@ import JanetModel.Value.Struct
 import JanetModel.Value.StructLemmas
 import JanetModel.Value.SymCacheLemmas
 import JanetModel.Value.SymGenLemmas
+import JanetModel.Value.SymGenTerm
 import JanetModel.Value.TraverseLemmas
 import JanetModel.Value.RobinPerm
 import JanetModel.Value.RobinDup
@@ -252,34 +253,59 @@ symbol; it is regenerated from the source (`Gen.Value.gensymProbeLoop`, structur
 /-- tie: in the source the probe of the gensym counter sits in a loop that repeats while the name is found -/
 theorem gensym_probe_loop_tie : JanetModel.Gen.Value.gensymProbeLoop = true := by decide
 
+/-- **the probe loop of `janet_symbol_gen` terminates** (session 4d; `Value/SymGenTerm.lean`): in every state reached from
+    `janet_symcache_init` by interns, sweeps and gensyms, the loop `do { probe } while (found && (inc_gensym(), 1))` finishes
+    within `cache_count + 1` probes, and its result — hence that of the whole call — is the same for EVERY larger probe bound:
+    `gensymT` (the model without a bound) is the result of the C's unbounded loop.  Reason: `inc_gensym` is +1 on a 6-digit
+    base-62 number (proved on the REGENERATED digit transitions), so the first 62^6 counter names are pairwise distinct, each
+    hit shows one more of them to be live, and the cache holds exactly `cache_count` symbols.  `hsmall` holds in the C
+    whatever the history: `cache_count` is a uint32_t, 2^32 < 62^6. -/
+theorem gensym_terminates (ops : List OpG) (s : GState) (h : runGT ginit ops = some s) (hsmall : s.cache.count < 62 ^ 6) :
+    (∃ r, ∀ fuel, s.cache.count < fuel → genLoop fuel s.cache s.counter = some r) ∧
+    (∀ fuel, s.cache.count < fuel → gensym fuel s.cache s.counter = gensymT s.cache s.counter) := by
+  obtain ⟨hinv, hw, hlen, _⟩ := runGT_inv ops ginit s init_invC gensymCounterInit_ok.1 h
+  have hlen7 : s.counter.length = 7 := by rw [hlen]; exact gensymCounterInit_ok.2
+  obtain ⟨r, hr⟩ := genLoop_terminates hinv hw (by rw [hlen7]; exact hsmall)
+  refine ⟨⟨r, hr⟩, fun fuel hf => ?_⟩
+  simp only [gensymT, gensym, hr fuel hf, hr (s.cache.count + 1) (by omega)]
+
 /-- **gensym returns a symbol that is `=` to no live symbol**: after ANY history of interns, sweeps and gensyms from
-    `janet_symcache_init`, a `janet_symbol_gen` call (whatever number of counter names it has to skip) settles on bytes that
-    no cached symbol has, puts the new symbol at a fresh address, and leaves every other symbol at its address -/
-theorem gensym_fresh (fuel : Nat) (ops : List OpG) (s : GState) (c' : Cache) (ctr' : List UInt8) (p : Nat)
-    (h : runG fuel ginit ops = some s) (hg : gensym fuel s.cache s.counter = some (c', ctr', p)) :
+    `janet_symcache_init`, a `janet_symbol_gen` call (whatever number of counter names it has to skip — no probe bound:
+    `gensym_terminates`) settles on bytes that no cached symbol has, puts the new symbol at a fresh address, and leaves every
+    other symbol at its address -/
+theorem gensym_fresh (ops : List OpG) (s : GState) (c' : Cache) (ctr' : List UInt8) (p : Nat)
+    (h : runGT ginit ops = some s) (hg : gensymT s.cache s.counter = some (c', ctr', p)) :
     (∀ q, ¬ Live s.cache.slots q ctr') ∧ Live c'.slots p ctr' ∧ (∀ q b, Live s.cache.slots q b → q ≠ p) ∧
     (∀ q x, Live c'.slots q x ↔ (Live s.cache.slots q x ∨ (q = p ∧ x = ctr'))) := by
-  have hinv := (runG_as_run fuel ops ginit s init_invC h).1
-  obtain ⟨_, _, _, hfresh, hp, _, hl⟩ := gensym_spec fuel s.cache s.counter c' ctr' p hinv hg
+  have hinv := (runGT_inv ops ginit s init_invC gensymCounterInit_ok.1 h).1
+  obtain ⟨_, _, _, hfresh, hp, _, hl⟩ := gensym_spec _ s.cache s.counter c' ctr' p hinv hg
   refine ⟨hfresh, (hl p ctr').mpr (Or.inr ⟨rfl, rfl⟩), fun q b hq e => ?_, hl⟩
   have := hinv.fresh q b hq
   omega
 
 /-- **`symcache_unique` for histories with gensym**: no two cached symbols with the same bytes, one address names one
     symbol, a cached symbol is found by a lookup of its bytes — after any history of `janet_symbol`, sweeps and
-    `janet_symbol_gen` (every such history is realised by a plain one: `runG_as_run`) -/
-theorem symcache_unique_gensym (fuel : Nat) (ops : List OpG) (s : GState) (h : runG fuel ginit ops = some s) :
+    `janet_symbol_gen` (every such history is realised by a plain one: `runGT_inv`) -/
+theorem symcache_unique_gensym (ops : List OpG) (s : GState) (h : runGT ginit ops = some s) :
     (∀ p q b, Live s.cache.slots p b → Live s.cache.slots q b → p = q) ∧
     (∀ p b b', Live s.cache.slots p b → Live s.cache.slots p b' → b = b') ∧
     (∀ p b, Live s.cache.slots p b → ∃ c', intern s.cache b = some (c', p)) := by
-  obtain ⟨_, ops', ho⟩ := runG_as_run fuel ops ginit s init_invC h
+  obtain ⟨_, _, _, ops', ho⟩ := runGT_inv ops ginit s init_invC gensymCounterInit_ok.1 h
   have := symcache_unique ops' s.cache ho
   exact ⟨this.1, this.2.1, this.2.2.1⟩
 
 /-- non-vacuity: gensym, the next counter name interned by other means, two more gensyms (the second skips TWO live names:
     its own previous result and the pre-interned one), a sweep and another gensym -/
-example : ((runG 8 ginit [.gensym, .intern [95, 48, 48, 48, 48, 48, 50], .gensym, .gensym, .sweep [95, 48, 48, 48, 48, 48, 49], .gensym]).map
+example : ((runGT ginit [.gensym, .intern [95, 48, 48, 48, 48, 48, 50], .gensym, .gensym, .sweep [95, 48, 48, 48, 48, 48, 49], .gensym]).map
     (·.counter)) = some [95, 48, 48, 48, 48, 48, 52] := by
+  decide +kernel
+
+/-- non-vacuity of `gensym_terminates`, and the bound `cache_count + 1` is TIGHT: after a gensym (`_000000`) and an intern of
+    `_000001` the cache counts 2 symbols, the next `janet_symbol_gen` is still probing after 2 probes and finishes with the 3rd -/
+example : ((runGT ginit [.gensym, .intern [95, 48, 48, 48, 48, 48, 49]]).map fun s =>
+    (s.cache.count == 2 && decide (s.cache.count < 62 ^ 6) && (genLoop 2 s.cache s.counter).isNone &&
+      (genLoop 3 s.cache s.counter).map (·.2.1) == some [95, 48, 48, 48, 48, 48, 50] &&
+      (gensymT s.cache s.counter).map (·.2.1) == some [95, 48, 48, 48, 48, 48, 50])) = some true := by
   decide +kernel
 
 /-- `inc_gensym` carries: `_00000Z` → `_000010`, `_000009` → `_00000a`, `_00000z` → `_00000A`, `_ZZZZZZ` wraps to `_000000` -/
